@@ -43,6 +43,28 @@ SidNext == StateId(head', tail', slot', plock', poplock', closed', ended', activ
 
 EdgeRec == [f |-> SidNow, t |-> SidNext, p |-> who']
 
+\* Non-vacuity probes: each NV_x is the negation of a situation the rules talk about; the selftest checks that TLC
+\* reports it violated (= the situation is reachable) in one of the bounded configurations.
+NV_DropOldest      == \A p \in Prods : pc[p] # "src_popunlock"
+NV_TrylockFails    == \A p \in Prods : ~(pc[p] = "src_trylock" /\ poplock # 0)
+NV_WouldBlock      == \A p \in Prods : loc[p].res # "WouldBlock"
+NV_PopFindsEmpty   == \A p \in Prods : ~(pc[p] = "pop_lt" /\ loc[p].ph = tail)
+NV_Sleeps          == pc[C] # "c_sleep"
+NV_WakeupAnte      == ~(OthersDone /\ closed /\ pc[C] = "c_sleep")
+NV_DrainAnte       == ~(cres = "eos" /\ ~stopped /\ Len(received) > 0)
+NV_EosByStopEarly  == ~(cres = "eos" /\ stopped /\ head # tail)
+NV_PermitPath      == ~(pc[C] = "r_await" /\ permit /\ gen = cgen)
+NV_GenerationPath  == ~(pc[C] = "r_await" /\ gen # cgen)
+NV_RecheckNonEmpty == ~(pc[C] = "empty" /\ head # tail)
+NV_RingDropFrees   == ~(torn /\ head # tail)
+NV_DropNotLast     == \A p \in Prods : ~(pc[p] = "drop_sub" /\ active > 1)
+NV_ArcNotLast      == \A p \in Prods : ~(pc[p] = "h_release" /\ loc[p].hmode = "arc" /\ arc > 1)
+NV_LockContended   == \A p \in Prods : ~(pc[p] = "src_lock" /\ plock # 0)
+NV_ConsumerBlocked == ~(pc[C] = "r_lock" /\ poplock # 0)
+\* expected to HOLD (dead branches of the code, reported in the design note)
+Dead_SecondPushFull == \A p \in Prods : ~(pc[p] = "push_lh" /\ loc[p].phase = 1 /\ loc[p].lt - head >= Cap)
+Dead_SenderSeesClosed == \A p \in Prods : ~(pc[p] = "src_closed" /\ closed)
+
 EmitEdge == PrintT(<<"EDGE", ToJson(EdgeRec)>>)
 NoEmit   == TRUE
 =============================================================================
